@@ -301,6 +301,22 @@ def fit_always_fits(ctx, det_base, sc_base):
         for what, hit, txt in (("_fit", calls_fit, "runs self._fit"), ("_X", stores_x, "stores the data in self._X"), ("_is_fitted", marks_fitted, "sets self._is_fitted = True")):
             st, node = _pass_through(f.node.body, hit)
             ctx.check(st == "CALLED", rule, f"{cls.name}.fit|{what}", f.loc(node) if node is not None else f.loc(), f"every returning path of {cls.name}.fit {txt}: a second fit can never leave the state of the first in place", found=("a path returns before it: " + norm_src(node)) if node is not None else ("no such statement on the fall-through path" if st != "CALLED" else "on every path"))
+        # what is stored is the validated argument ITSELF: update() merges the next batch with self._X container to container
+        # (X.combine_first(self._X)); a stored copy of another container kind (pd.DataFrame(X), X.values) makes the merge
+        # fail or differ for the containers that are not of that kind (a Series batch against a stored frame)
+        if cls is det_base:
+            for st_ in ast.walk(f.node):
+                if isinstance(st_, ast.Assign) and any(isinstance(t, ast.Attribute) and isinstance(t.value, ast.Name) and t.value.id == me and t.attr == "_X" for t in st_.targets):
+                    v_ = st_.value
+                    if isinstance(v_, ast.Name) and v_.id == xarg:
+                        ctx.holds(rule, f"{cls.name}.fit|_X-container", f.loc(st_), "fit stores the validated argument itself (the container kind update() will merge with)")
+                    else:
+                        txt_ = norm_src(v_)
+                        conv = any(w in txt_ for w in ("pd.DataFrame(", "pd.Series(", "np.asarray(", "np.array(", ".values", ".to_numpy(", ".to_frame("))
+                        if conv:
+                            ctx.violation(rule, f"{cls.name}.fit|_X-container", f.loc(st_), "fit stores a CONVERTED copy of the data: update() merges the next batch with it container to container, so a batch of the original kind (a Series against a stored frame) fails or is aligned differently", found=f"self._X = {txt_[:60]}", expected=f"self._X = {xarg}")
+                        else:
+                            ctx.undecided(rule, f"{cls.name}.fit|_X-container", f.loc(st_), "what fit stores in self._X is not the validated argument itself: not decided", found=f"self._X = {txt_[:60]}")
         # the data handed to _fit are the argument (after normalisation), not the stored attribute of an earlier call
         for x in ast.walk(f.node):
             if isinstance(x, ast.Call) and isinstance(x.func, ast.Attribute) and x.func.attr == "_fit" and isinstance(x.func.value, ast.Name) and x.func.value.id == me:
